@@ -420,6 +420,18 @@ class EngineCore:
             st.assume(z3.Or([kv == self.cls_gid(c) for c in classes]))
         return exc
 
+    def representatives(self, base: Any, excl: tuple = ()) -> list:
+        """One candidate class per region of the exception lattice that handlers can tell apart: the built-in list, plus
+        the classes the contract under verification names in env["exc_universe"] (repository classes, exception groups)."""
+        out = [PyClass(k) for k in EXC_REPRESENTATIVES]
+        top = getattr(self, "top_ctx", None)
+        if top is not None and top.contract is not None:
+            for n in top.contract.env.get("exc_universe", []):
+                c = self.class_by_name(n)
+                if c not in out:
+                    out.append(c)
+        return [c for c in out if self.is_subclass(c, base) and not any(self.is_subclass(c, x) for x in excl)]
+
     _CLS_GIDS: list = []
 
     def cls_gid(self, c: Any) -> int:
